@@ -104,8 +104,39 @@ theorem foldl_qTally_perm (hA : LawfulArith A) {l l' : List (Ballot α)} (hp : l
 
 /-! ## the interface, `xQ`, and the stages -/
 
+/-- a per-ballot function that does not look at the multiplier -/
+def MultEq (f : Ballot α → Ballot α) : Prop := ∀ (b : Ballot α) (m : Nat), f { b with mult := m } = { f b with mult := m }
+
+theorem qAdvance_setMult (s : St α) (b : Ballot α) (m : Nat) : qAdvance s { b with mult := m } = { qAdvance s b with mult := m } := by
+  unfold qAdvance advanceTo
+  simp only
+  cases (b.rank.drop b.idx).findIdx? (fun cid => s.isHopeful cid) <;> rfl
+
+theorem multEq_reset (s : St α) (z : α) : MultEq (fun (b : Ballot α) => qAdvance s { b with idx := 0, w := z, residual := z }) := by
+  intro b m
+  exact qAdvance_setMult s { b with idx := 0, w := z, residual := z } m
+
+theorem multEq_advW (s : St α) (cid : Nat) (nw : α) :
+    MultEq (fun (b : Ballot α) => if b.top == some cid then qAdvance s { b with w := nw } else b) := by
+  intro b m
+  have ht : ({ b with mult := m } : Ballot α).top = b.top := rfl
+  simp only [ht]
+  split
+  · exact qAdvance_setMult s { b with w := nw } m
+  · rfl
+
+theorem multEq_adv (s : St α) (cid : Nat) : MultEq (fun (b : Ballot α) => if b.top == some cid then qAdvance s b else b) := by
+  intro b m
+  have ht : ({ b with mult := m } : Ballot α).top = b.top := rfl
+  simp only [ht]
+  split
+  · exact qAdvance_setMult s b m
+  · rfl
+
+theorem multEq_setW (z : α) : MultEq (fun (b : Ballot α) => { b with w := z }) := fun _ _ => rfl
+
 structure XQ (fb : List (Ballot α) → List (Ballot α)) (fw : List (Nat × α) → List (Nat × α)) : Prop extends XF A fb fw where
-  mapB : ∀ (f : Ballot α → Ballot α) (l : List (Ballot α)), fb (l.map f) = (fb l).map f
+  mapB : ∀ (f : Ballot α → Ballot α), MultEq f → ∀ (l : List (Ballot α)), fb (l.map f) = (fb l).map f
   tally : ∀ (acc : QSt α) (l : List (Ballot α)), (fb l).foldl (qTally A) acc = l.foldl (qTally A) acc
   vaSum : ∀ l : List (Ballot α), A.sum (((fb l).filter (fun b => !b.exhaustedB)).map (fun b => A.ofInt b.mult))
     = A.sum ((l.filter (fun b => !b.exhaustedB)).map (fun b => A.ofInt b.mult))
@@ -115,14 +146,14 @@ variable {fb : List (Ballot α) → List (Ballot α)} {fw : List (Nat × α) →
 def xQ (fb : List (Ballot α) → List (Ballot α)) (fw : List (Nat × α) → List (Nat × α)) (q : QSt α) : QSt α :=
   { q with s := xB fb fw q.s }
 
-theorem xB_mapBallots (hx : XQ A fb fw) (s : St α) (g : Ballot α → Ballot α) :
+theorem xB_mapBallots (hx : XQ A fb fw) (s : St α) (g : Ballot α → Ballot α) (hg : MultEq g) :
     xB fb fw (mapBallots s g) = mapBallots (xB fb fw s) g := by
   unfold mapBallots xB
-  simp only [hx.mapB]
+  simp only [hx.mapB g hg]
 
 theorem xB_qRestart (hx : XQ A fb fw) (s1 : St α) : qRestart A (xB fb fw s1) = xB fb fw (qRestart A s1) := by
   unfold qRestart
-  rw [xB_mapBallots A hx]
+  rw [xB_mapBallots A hx _ _ (multEq_reset (unElect s1) A.zero)]
   rfl
 
 theorem qTally_xQ (acc : QSt α) (b : Ballot α) : qTally A (xQ fb fw acc) b = xQ fb fw (qTally A acc b) := by
@@ -204,7 +235,7 @@ theorem xQ_qDecide (hx : XQ A fb fw) (q1 : QSt α) (s5 : St α) :
         | none => rfl
         | some hc =>
           simp only
-          rw [xB_qElected A hx, qAdvance_xB, ← xB_mapBallots A hx, ← xB_logAct A hx.toXF]
+          rw [xB_qElected A hx, qAdvance_xB, ← xB_mapBallots A hx _ _ (multEq_advW (qElected A s6 hc) hc.cid (A.divV A.one (qQuot A hc))), ← xB_logAct A hx.toXF]
           rfl
     · simp only [hg, Bool.false_eq_true, if_false]
       rw [xB_breakTie A hx.toXF]
@@ -215,7 +246,7 @@ theorem xQ_qDecide (hx : XQ A fb fw) (q1 : QSt α) (s5 : St α) :
         | none => rfl
         | some lc =>
           simp only
-          rw [← xB_defeat A hx.toXF, qAdvance_xB, ← xB_mapBallots A hx, ← xB_logAct A hx.toXF]
+          rw [← xB_defeat A hx.toXF, qAdvance_xB, ← xB_mapBallots A hx _ _ (multEq_adv (s6.defeat A lc.cid "Defeat low quotient") lc.cid), ← xB_logAct A hx.toXF]
           rfl
 
 theorem xQ_qpqBody (hx : XQ A fb fw) (q : QSt α) :
@@ -292,7 +323,7 @@ theorem xQ_qpqStart (hx : XQ A fb fw) (s0 : St α) : qpqStart A (xB fb fw s0) = 
   unfold qpqStart xQ
   rw [qVA_xB A hx]
   dsimp only
-  rw [xB_logAct A hx.toXF, xB_mapBallots A hx]
+  rw [xB_logAct A hx.toXF, xB_mapBallots A hx _ _ (multEq_setW A.zero)]
   rfl
 
 theorem xB_qpqFinish (hx : XQ A fb fw) (q : QSt α) : qpqFinish A (xQ fb fw q) = xB fb fw (qpqFinish A q) := by
@@ -332,7 +363,7 @@ theorem qpq_xB (hx : XQ A fb fw) (s0 : St α) : qpqCount A (xB fb fw s0) = (qpqC
 theorem XQ_of_natPerm (hA : LawfulArith A) {π : ∀ {β : Type}, List β → List β} (hπ : NatPerm π) :
     XQ A (π (β := Ballot α)) (π (β := Nat × α)) :=
   { toXF := XF_of_natPerm A hA hπ
-    mapB := fun f l => hπ.nat f l
+    mapB := fun f _ l => hπ.nat f l
     tally := fun acc l => foldl_qTally_perm A hA (hπ.perm l) acc
     vaSum := fun l => by
       rw [arith_sum_eq A hA, arith_sum_eq A hA]
